@@ -36,10 +36,10 @@ REQUIRED = ['ha_house_monotone', 'ha_house_monotone_general', 'ha_vote_monotone'
             'score_sum_unscored_monotone_raise', 'score_sum_unscored_monotone_new',
             'bucklin_monotone_lift', 'bucklin_monotone_bullet', 'bucklin_default_monotone_lift',
             'bucklin_default_monotone_bullet', 'copeland_monotone', 'minimax_monotone',
-            'copeland_monotone_lift', 'copeland_monotone_bullet', 'minimax_monotone_lift', 'minimax_monotone_bullet']
+            'copeland_monotone_lift', 'copeland_monotone_bullet', 'minimax_monotone_lift', 'minimax_monotone_bullet',
+            'schulze_monotone', 'schulze_monotone_lift', 'schulze_monotone_bullet']
 UNPROVED = ["score_sum_monotone for unscored_value='min' (modelled through C12's {score: count} table model, checked by "
             'correspondence and oracle; the theorems cover unscored_value None and every numeric value)',
-            'schulze_monotone (beat-path strengths under Raised: needs the Floyd-Warshall correctness of widest_paths)',
             'bucklin_default_monotone on profiles WITH shared ranks (the even split over the compatible strict orders is '
             'modelled and checked by the correspondence and the oracle; the theorems cover split_equal_rankings=False and, for '
             'the default, profiles without shared ranks)']
@@ -1080,11 +1080,13 @@ LEVEL_TEXT = ('Both halves of C17 are theorems about the executable models the d
               '[w] after one unit of one ballot is replaced by the ballot with w lifted (approved / scored higher) or after an admissible new '
               'ballot: plurality, Borda/Dowdall/Geometric/ModifiedBorda/FixedTop (score lists regenerated from rankscore.py and proved '
               'non-increasing), approval, score-sum, Bucklin, Copeland (first and second order) and minimax (three scorers) on the ballot level '
-              'and on the pairwise-matrix level. Schulze is modelled and checked by correspondence + oracle only. The models are tied to /repo by '
+              'and on the pairwise-matrix level; Schulze (strict beat-path win over everybody, on top of the Floyd-Warshall correctness proof of C05) '
+              'likewise. The models are tied to /repo by '
               'running both elections of every pair through votelib and the Lean driver, which also re-applies the move.')
 LEVEL_NOTE = ('Trusted: Lean kernel + propext/Classical.choice/Quot.sound; translate.py for divisors and rank scorers; the correspondence harness '
               '(bounded by its generator: <=5 parties / <=4 candidates, exhaustive small scopes in the thorough tier); pool abstraction of the '
-              'highest-averages sorted list; frozenset iteration order modelled as ascending ids. Not proved: Schulze; default Bucklin on '
-              'profiles with shared ranks. Reading decisions (DESIGN 7/C17): a lift re-inserts w as a rank of its own (joining a shared rank is '
+              'highest-averages sorted list; frozenset iteration order modelled as ascending ids. Not proved: default Bucklin on profiles with shared ranks; '
+              "score-sum with unscored_value='min'. "
+              'Reading decisions (DESIGN 7/C17): a lift re-inserts w as a rank of its own (joining a shared rank is '
               'not admissible: false for non-convex score sequences); new ballots name existing candidates only (Borda rescales otherwise); '
               'bullet ballots for Bucklin/Copeland/minimax/Schulze.')
